@@ -20,7 +20,7 @@ ASSUMPTIONS = [
     "fe_start is checked on a frame size of 4 (the overflow buffer is cleared by a byte loop; CBMC's memset with a symbolic length mis-modelled the clear)",
 ]
 HAND_LEMMAS = ["determinism: with every per-utterance field reset to a constant and configuration fields outside the frame, the state after *_start* is a function of the configuration only; that the RESULT is a function of that state and the audio is NOT machine checked"]
-NOT_COVERED = ["fsg_search_start / fsg_history_reset / feat live-buffer reset / cmn_live state", "completeness of the field classification (a mechanical struct-field scan was planned, not built)", "two decoders in one process (writable globals scan not built)", "result determinism end to end"]
+NOT_COVERED = ["fsg_search_start / fsg_history_reset / feat live-buffer reset / cmn_live state", "completeness of the field classification (a mechanical struct-field scan was planned, not built)", "two decoders in one process (writable globals scan not built)", "result determinism end to end", "the items above are NOT under contract; determinism end to end is exercised only by the bounded native runs e2e_invariants and protocol_walk (C09) on one recording -- never counted as proved"]
 CLAIM = dict(
     text="Reset contracts on three start functions, with the pre-state fully symbolic: after acmod_start_utt every per-utterance field of the acoustic model object (state, both ring indices and counts, output frame, senone-score frame, active senone count, mgau frame index) has a fixed value; after fe_start the overflow buffer is empty and zeroed, pre-emphasis history cleared and noise statistics reset; after an in-protocol decoder_start_utt the previous utterance's lattice, best link, posterior, hypothesis string, JSON line and state aligner are gone and the utterance counter advanced. Setting the channel-normalisation state from text (cmn_set_repr) determines EVERY coefficient of mean and accumulator from the text alone, whatever the state before (bounded: 3 coefficients, texts <= 5 characters). Frame clauses prove nothing else is written. End-to-end isolation and determinism are NOT decided.",
     note="three reset functions only; search-level resets, CMN, field-classification completeness, globals and end-to-end determinism not covered; trusted: CBMC 6.11; end-to-end invariants on ~12 real decodes by a bounded native run (native/e2e_invariants.c), never counted as proved",
